@@ -2,7 +2,7 @@
 C12 helper lemmas for the "PostStop exactly once" clause: PostStop runs again for an actor only
 through a stop of an actor that is no longer running (`postStop a false` events).
 -/
-import GoaktVerif.Lemmas.C12
+import GoaktVerif.Lemmas.C12Top
 
 namespace GoaktVerif.C12
 open GoaktVerif.Model.C12 GoaktVerif.Model.C12.State
